@@ -258,27 +258,67 @@ def text(n):
     return norm(n)
 
 
-def guards_of(fi, target_node):
+class GuardSet(set):
+    """Set of raw (test text, label) pairs.  Membership and equality also accept the
+    spelling in which single-assignment locals are resolved (`counter` ->
+    `self.system.callstack.counter`), so that an extracted local or an alias does not
+    change what a rule sees; iteration and set algebra stay on the raw texts."""
+
+    def __init__(self, pairs=(), alt=None):
+        super().__init__(pairs)
+        self.alt = dict(alt or {})          # raw pair -> resolved pair
+
+    def resolved(self):
+        return {self.alt.get(p, p) for p in set.__iter__(self)}
+
+    def __contains__(self, pair):
+        return set.__contains__(self, pair) or pair in self.resolved()
+
+    def __eq__(self, other):
+        if isinstance(other, GuardSet):
+            return set(self) == set(other)
+        return set(self) == other or self.resolved() == other
+
+    def __ne__(self, other):
+        return not self.__eq__(other)
+
+    __hash__ = None
+
+
+def guards_of(fi, target_node, raw=False):
     """{(test text, 'T'|'F')}: the test outcomes every path from entry to target must take."""
     cfg = fi.cfg
     out = set()
+    alt = {}
     ids = [b for b in nodes_for(fi, target_node) if cfg.reachable(b)]
     tests = {}
     for n in cfg.nodes:
         if n.kind == "test":
-            tests.setdefault(norm(n.ast), []).append(n.id)
-    for txt, ts in tests.items():
+            tests.setdefault(norm(n.ast), []).append(n)
+    for txt, ns in tests.items():
+        ts = [n.id for n in ns]
         for lab in ("T", "F"):
             r = cfg.reach([cfg.entry], avoid_edges={(t, lab) for t in ts})
             if ids and all(b not in r for b in ids):
                 out.add((txt, lab))
-    return out
+                if not raw:
+                    alt[(txt, lab)] = (rnorm(fi, ns[0].ast), lab)
+    return GuardSet(out, alt)
 
 
 def run_abstract(fi, outcome):
     """Follow the CFG of fi with test outcomes fixed by `outcome(test_expr) -> 'T'|'F'|None`
-    (None: both).  Exceptional edges are not followed.  -> set of reached node ids."""
+    (None: both).  Exceptional edges are not followed.  -> set of reached node ids.
+    A test the valuation does not know is offered again with its single-assignment locals
+    resolved."""
     cfg = fi.cfg
+    _orig = outcome
+
+    def outcome(e):
+        v = _orig(e)
+        if v is None and single_defs(fi):
+            v = _orig(resolve(fi, e))
+        return v
     seen = set()
     stack = [cfg.entry]
     while stack:
@@ -303,3 +343,89 @@ def reached_under(fi, target_node, outcome):
     ids = nodes_for(fi, target_node)
     r = run_abstract(fi, outcome)
     return any(i in r for i in ids)
+
+
+# ---- copy propagation over single-assignment locals -----------------------------------
+
+def single_defs(fi):
+    """local name -> defining expression, for locals assigned exactly once in fi by a plain
+    `name = expr` (or element-wise tuple assignment), never augmented, not a parameter and
+    not a loop / with / except target."""
+    cache = getattr(fi, "_sdefs", None)
+    if cache is not None:
+        return cache
+    counts, defs = {}, {}
+    params = set(fi.params)
+    for n in walk_local(fi.node):
+        if isinstance(n, ast.Assign):
+            for t in n.targets:
+                if isinstance(t, ast.Name):
+                    counts[t.id] = counts.get(t.id, 0) + 1
+                    defs[t.id] = n.value
+                elif isinstance(t, (ast.Tuple, ast.List)):
+                    if isinstance(n.value, (ast.Tuple, ast.List)) and len(n.value.elts) == len(t.elts):
+                        for a, b in zip(t.elts, n.value.elts):
+                            if isinstance(a, ast.Name):
+                                counts[a.id] = counts.get(a.id, 0) + 1
+                                defs[a.id] = b
+                    else:
+                        for a in ast.walk(t):
+                            if isinstance(a, ast.Name):
+                                counts[a.id] = counts.get(a.id, 0) + 2
+        elif isinstance(n, (ast.AugAssign, ast.AnnAssign)):
+            if isinstance(n.target, ast.Name):
+                counts[n.target.id] = counts.get(n.target.id, 0) + 2
+        elif isinstance(n, (ast.For, ast.AsyncFor)):
+            for a in ast.walk(n.target):
+                if isinstance(a, ast.Name):
+                    counts[a.id] = counts.get(a.id, 0) + 2
+        elif isinstance(n, (ast.With, ast.AsyncWith)):
+            for it in n.items:
+                if it.optional_vars is not None:
+                    for a in ast.walk(it.optional_vars):
+                        if isinstance(a, ast.Name):
+                            counts[a.id] = counts.get(a.id, 0) + 2
+        elif isinstance(n, ast.ExceptHandler) and n.name:
+            counts[n.name] = counts.get(n.name, 0) + 2
+        elif isinstance(n, (ast.ListComp, ast.SetComp, ast.DictComp, ast.GeneratorExp)):
+            for g in n.generators:
+                for a in ast.walk(g.target):
+                    if isinstance(a, ast.Name):
+                        counts[a.id] = counts.get(a.id, 0) + 2
+    out = {k: v for k, v in defs.items() if counts.get(k) == 1 and k not in params}
+    try:
+        fi._sdefs = out
+    except AttributeError:
+        pass
+    return out
+
+
+class _Subst(ast.NodeTransformer):
+    def __init__(self, defs, depth):
+        self.defs, self.depth = defs, depth
+
+    def visit_Name(self, node):
+        if isinstance(node.ctx, ast.Load) and node.id in self.defs and self.depth > 0:
+            import copy
+            v = copy.deepcopy(self.defs[node.id])
+            return _Subst({k: x for k, x in self.defs.items() if k != node.id}, self.depth - 1).visit(v)
+        return node
+
+
+def resolve(fi, expr, depth=3):
+    """`expr` with single-assignment locals replaced by their definitions (copy propagation)."""
+    import copy
+    defs = single_defs(fi)
+    if not defs or expr is None:
+        return expr
+    return _Subst(defs, depth).visit(copy.deepcopy(expr))
+
+
+def rnorm(fi, expr, depth=3):
+    """Normalised text of `expr` after copy propagation."""
+    return norm(resolve(fi, expr, depth))
+
+
+def texts(fi, expr):
+    """{raw text, resolved text} of an expression: rules accept either spelling."""
+    return {norm(expr), rnorm(fi, expr)}
